@@ -510,6 +510,14 @@ int main(int argc, char** argv) {
       std::vector<OperandSpec> sp2; sp2.push_back(menu[2][2]); sp2.push_back(menu[2][1]);
       add_union(tasks, mk, sp2, "U<-A,UserB,U<-B,res", cap);
     }
+    // reset() between two uses: the union after reset() is a new union (both operands in estimation mode, the second with the
+    // smaller or the same tau: whatever the first use left behind would be seen by resolve_tau / the pseudo-exact test)
+    for (uint32_t mk = 4; mk <= 5; ++mk) {
+      std::vector<OperandSpec> sp; sp.push_back(opnd(2, wl(1, 1, 1, 1))); sp.push_back(opnd(2, wl(1, 1, 1)));
+      add_union(tasks, mk, sp, "U<-A,res,Ureset,U<-B,res", cap);
+      std::vector<OperandSpec> sp3; sp3.push_back(opnd(2, wl(1, 1, 1))); sp3.push_back(opnd(2, wl(1, 1, 1))); sp3.push_back(opnd(1, wl(2, 1)));
+      add_union(tasks, mk, sp3, "U<-A,Ureset,U<-B,res,U<-C,res", cap);
+    }
   }
   { std::vector<std::pair<int, size_t> > ord; for (size_t i = 0; i < tasks.size(); ++i) ord.push_back(std::make_pair(-g_prio[tasks[i].name], i));
     std::sort(ord.begin(), ord.end()); std::vector<Task> t2; for (size_t i = 0; i < ord.size(); ++i) t2.push_back(tasks[ord[i].second]); tasks.swap(t2); }
